@@ -41,24 +41,30 @@ def gen(ctx):
 
 def spec_tie(ctx, abstract):
     """The theorems of Props/C03.v are about Grammar.enc / Grammar.wf_resp; the streams fed to the real
-    connections come from mpdgen.enc_response.  Tie the two: on every generated abstract response the
-    extracted enc must produce the very bytes that were sent, and wf_resp must hold (so the theorem
-    applies to it); on mutated, mostly ill-formed, responses wf_resp must agree with the Python mirror."""
+    connections come from mpdgen.enc_response.  Tie the two: on every generated abstract response, and on a
+    mutated (mostly ill-formed) copy of each, the extracted enc must produce the very bytes the generator
+    produces, and wf_resp must hold wherever the Python mirror of the protocol's well-formedness holds
+    (so that the theorem covers everything the protocol allows; wf_resp accepting MORE than the mirror only
+    makes the theorem stronger, it is counted but is no alarm - e.g. after the client's charsets were widened)."""
     rs = list(abstract)
     assert all(g.wf_response(r) for r in rs), "generator produced an ill-formed response"
     rs += [g.ill_formed(ctx.rng, r) for r in abstract]
     lines = [g.spec_case(r) for r in rs]
     out = ctx.run_model(lines)
-    dis = []
+    dis, wider = [], 0
     for r, c, got in zip(rs, lines, out):
-        exp = g.spec_expect(r)
-        if got != exp:
-            dis.append({"case": c[:4000], "impl": "python generator: " + exp[:4000], "model": "Grammar.v: " + got[:4000]})
-    return dis, len(lines), sum(1 for r in rs if not g.wf_response(r))
+        pywf, exp_bytes = g.wf_response(r), g.hexs(g.enc_response(r))
+        t = got.split(" ")
+        ok = len(t) == 2 and t[0] in ("wf=0", "wf=1") and t[1] == exp_bytes and not (pywf and t[0] == "wf=0")
+        if ok and not pywf and t[0] == "wf=1":
+            wider += 1
+        if not ok:
+            dis.append({"case": c[:4000], "impl": "python generator: " + g.spec_expect(r)[:4000], "model": "Grammar.v: " + got[:4000]})
+    return dis, len(lines), sum(1 for r in rs if not g.wf_response(r)), wider
 
 
 def run(ctx, only=None):
-    spec_n = ill_n = 0
+    spec_n = ill_n = wider = 0
     if only is not None:
         cases, expect = only["cases"], only["expect"]
         impl, model, dis = run_cases(ctx, cases)
@@ -66,7 +72,7 @@ def run(ctx, only=None):
         cases, expect, abstract = gen(ctx)
         impl, model, dis = run_cases(ctx, cases)
         if ctx.model_ok:
-            sdis, spec_n, ill_n = spec_tie(ctx, abstract)
+            sdis, spec_n, ill_n, wider = spec_tie(ctx, abstract)
             dis = dis + sdis
     fails = []
     for c, out, exp in zip(cases, impl, expect):
@@ -82,7 +88,7 @@ def run(ctx, only=None):
     kinds = {"with_binary": sum(1 for e in expect if any("bin=~" not in x.replace("bin=~", "", 0) or "bin=" in x and "bin=~" not in x for x in e)),
              "with_error": sum(1 for e in expect if any("err[none]" not in x for x in e)),
              "multi_response": sum(1 for e in expect if len(e) > 1), "cases": len(cases),
-             "spec_tie_responses": spec_n, "spec_tie_ill_formed": ill_n}
+             "spec_tie_responses": spec_n, "spec_tie_ill_formed": ill_n, "spec_wf_wider_than_protocol_mirror": wider}
     nontrivial = {c for c, e in zip(cases, expect) if len(e) > 1 or any("/" in x or "err[none]" not in x or "bin=~" not in x for x in e)}
     return finish(
         ctx, evaluations=len(cases), distinct_nontrivial=len(nontrivial),
@@ -91,7 +97,8 @@ def run(ctx, only=None):
              "encoded, pushed through both real connections whole and under random segmentation, and the printed Response is compared with the "
              "abstract one; non-trivial = several responses, several frames, an error or a payload.  Spec tie: every generated abstract "
              "response (and one mutation of each, mostly ill-formed) is also encoded by the extracted Grammar.enc and judged by Grammar.wf_resp; "
-             "bytes and verdict must equal the Python generator's (reported as correspondence disagreements)",
+             "the bytes must equal the Python generator's and wf_resp must hold wherever the Python mirror of the protocol's well-formedness does "
+             "(reported as correspondence disagreements)",
         samples=[describe(cases[0])[:500], describe(cases[len(cases) // 2])[:500]], distribution=kinds,
         oracle_failures=fails, disagreements=dis,
     )
